@@ -82,7 +82,7 @@ type pathCtx struct {
 	steps   int64
 	budget  int64
 	flagged bool // some feasibility query was unknown on this path
-	obs     []string
+	obs     []obsEntry
 	reached map[string]bool
 	samples int
 	imprecise int
@@ -346,11 +346,26 @@ func (p *pathCtx) check(c *smt.Term, msg string, site string) {
 
 func (p *pathCtx) violation(kind, msg, site string, model map[string]uint64) {
 	v := Violation{Kind: kind, Msg: msg, Site: site, Model: copyModel(model), Prefix: append([]uint64(nil), p.prefix[:p.pos]...),
-		Vars: append([]string(nil), p.order...), Widths: map[string]uint8{}, Trace: append([]string(nil), p.obs...)}
+		Vars: append([]string(nil), p.order...), Widths: map[string]uint8{}, Trace: p.renderObs(model)}
 	for n, t := range p.vars {
 		v.Widths[n] = t.W
 	}
 	p.i.report(v)
+}
+
+type obsEntry struct {
+	key string
+	v   value
+}
+
+// renderObs renders the observations under a model.
+func (p *pathCtx) renderObs(model map[string]uint64) []string {
+	out := make([]string, len(p.obs))
+	memo := map[*smt.Term]uint64{}
+	for k, o := range p.obs {
+		out[k] = o.key + "=" + describeUnder(o.v, model, memo)
+	}
+	return out
 }
 
 // sampleInputs renders the symbolic inputs of the path under its model.
